@@ -1277,6 +1277,8 @@ def order_flags(shape, order):
 
 def unwrap(I, fr, x):
     """__array__ protocol: elements passed to numpy functions expose their array"""
+    if hasattr(x, 'pv_asarray'):
+        return x.pv_asarray(I, fr)
     if isinstance(x, ip.Obj) and isinstance(x.cls, ip.ClassV):
         c, e = x.cls.lookup('__array__')
         if e is not None:
